@@ -362,8 +362,9 @@ Fixpoint build_rdmrs (ins : list input) (pols : list hash) (l : list (purpose * 
 Definition scripts_of_kind (k : Z) (st : staging) : list blob :=
   map (fun e => s_bytes (snd e)) (filter (fun e => s_kind (snd e) =? k) (s_scripts st)).
 
-Definition build (st : staging) : outcome atx :=
-  let inputs := sorted_inputs st in
+(* everything before the redeemer loop: outputs, mint, network id, collateral return,
+   the scripts loop (native scripts must decode), the datums (must decode) *)
+Definition build_head (st : staging) : outcome (list aout * amap * option Z * option aout) :=
   match build_outputs (s_outputs st) with
   | Err e => Err e | Panic p => Panic p
   | Ok outputs =>
@@ -384,7 +385,14 @@ Definition build (st : staging) : outcome atx :=
   | Ok collret =>
   if existsb (fun e => (s_kind (snd e) =? 0) && negb (s_ok (snd e))) (s_scripts st) then Err E_SCRIPT
   else if existsb (fun e => negb (snd (snd e))) (s_datums st) then Err E_DATUM
-  else
+  else Ok (outputs, mint, network, collret)
+  end end end end.
+
+Definition build (st : staging) : outcome atx :=
+  let inputs := sorted_inputs st in
+  match build_head st with
+  | Err e => Err e | Panic p => Panic p
+  | Ok (outputs, mint, network, collret) =>
   let pols := map fst mint in
   match build_rdmrs inputs pols (s_rdmrs st) with
   | Err e => Err e | Panic p => Panic p
@@ -393,7 +401,7 @@ Definition build (st : staging) : outcome atx :=
               mint (s_lv st) (s_colls st) (s_signers st) network collret (s_refs st)
               (scripts_of_kind 0 st) (scripts_of_kind 1 st) (scripts_of_kind 2 st) (scripts_of_kind 3 st)
               (map (fun e => fst (snd e)) (s_datums st)) rdmrs (s_aux st))
-  end end end end end.
+  end end.
 
 (* all outcomes the redeemer loop can end with when it fails, whatever the iteration order *)
 Definition rdmr_failures (st : staging) : list (outcome atx) :=
